@@ -6,6 +6,15 @@ IO_ASSUME = "generated io.Reader/io.Writer doubles honour the io contracts; read
 REF_ASSUME = "the reference recogniser/encoder for Thrift Binary in harness/ref (written from the protocol description, never importing the code under test) is correct"
 
 CHECKS = {
+    "C01": {
+        "run": "^TestC01_",
+        "level": "exploration",
+        "level_text": "Wire-format oracle (harness/ref encoder) for every item kind: the in-place, appending and both stream writers must produce byte-identical output of the advertised length, and the buffer reader and the stream reader (under generated fragmentation incl. zero reads and data with io.EOF) must return the original value and consume exactly that many bytes. Complete enumeration of bool/i8/i16/field ids/type bytes (thorough: all 2^32 i32), boundary patterns for i64/double, string lengths across the 4096/8192 buffer boundaries, plus random scripts.",
+        "level_note": "Trusted: harness/ref big-endian encoder, faultio doubles. 2^64 domains are sampled by bit-pattern classes, not enumerated.",
+        "technique": "round-trip + differential property-based testing (rapid) against a reference encoder, with complete enumeration of the small scalar domains",
+        "assumptions": [IO_ASSUME, REF_ASSUME],
+        "timeout": {"quick": 900, "thorough": 7200},
+    },
     "C02": {
         "run": "^TestC02_",
         "level": "exploration",
@@ -31,6 +40,14 @@ CHECKS = {
         "level_note": "Trusted: the cursor model (harness), the faultio.ScriptReader double, Go runtime. Sources honour the io.Reader contract and never return more than 3 consecutive empty reads.",
         "technique": "model-based property testing (rapid) + bounded-exhaustive history and fault-position enumeration against a cursor model",
         "assumptions": [IO_ASSUME, "stream content is a fixed position-dependent function, so any offset error changes bytes"],
+    },
+    "C05": {
+        "run": "^TestC05_",
+        "level": "fault_enumeration",
+        "level_text": "Region-model oracle over generated writer histories: all programs up to a fixed length over a boundary alphabet crossed with the sink failing at every Write index (and short counts) and with five kinds of bytes-writer target, plus thousands of random histories with lazily filled regions and growths. Agreement on everything explored, not absence.",
+        "level_note": "Trusted: the region model (harness), faultio.ScriptWriter (copies p, fails the k-th call), Go runtime. For bytes writers only the first Flush is compared with the target slice (the property's sentence covers exactly this).",
+        "technique": "model-based property testing (rapid) + bounded-exhaustive history and sink-fault enumeration against a region/byte-list model",
+        "assumptions": [IO_ASSUME],
     },
     "C08": {
         "run": "^TestC08_",
